@@ -585,6 +585,12 @@ def run_inputs(ctx, inputs):
 
 
 def run(ctx):
+    ctx.assumptions = [
+        "C19: socket.inet_aton is modelled on canonical dotted quads and on strings glibc certainly refuses (Py.inetModelled); legacy forms (1.2.3, hex, octal) are neither generated nor judged",
+        "C19: int() on ASCII digit strings only; urlparse of the environment value = Model.Url.urlsplit on the URL alphabet; unquote = identity (no '%' in credentials)",
+        "C19: Spec readings: CIDR blocks are strict (no host bits set); an address literal belongs to no domain; comparisons are case-sensitive; IPv6 origins in CONNECT are outside the property's quantifier",
+        "C19: the proxy's reply is read from a scripted socket; TLS is one opaque event carrying server_hostname",
+    ]
     ctx.rule = ("no-proxy: host names over labels {a,b,ab,ba} (<= 3 labels) x leading-dot / plain entries (<= 2 labels; 3 in "
                 "thorough), lists of 2 (3) entries over a 12-entry pool, every prefix length 0..32 x aligned/unaligned "
                 "network x inside/edge/outside addresses, malformed CIDRs, option/no_proxy/NO_PROXY sources; decision: "
